@@ -76,6 +76,15 @@ func runC07(c c07Case) error {
 				return fmt.Errorf("%s round trip: record %d differs by Result.Equal", codec.Name, i)
 			}
 		}
+		// 1b. the same sequence encoded from recycled buffers (one Result, one header map and one
+		// body buffer overwritten in place between the calls) is the same sequence
+		if data2, err := vgen.EncodeAllRecycled(codec, c.Results); err != nil {
+			return err
+		} else if got2, derr := vgen.DecodeAll(codec.Dec(bytes.NewReader(data2)), len(c.Results)+1); derr != io.EOF {
+			return fmt.Errorf("%s, encoded from recycled buffers: decoding stopped after %d of %d records with %v", codec.Name, len(got2), len(c.Results), derr)
+		} else if d := vgen.DiffResults(c.Results, got2); d != "" {
+			return fmt.Errorf("%s round trip of results encoded from recycled buffers (one Result, header map and body buffer overwritten between Encode calls): %s", codec.Name, d)
+		}
 		// 2. independent reader of the documented layout
 		var ind []vegeta.Result
 		switch codec.Name {
